@@ -480,6 +480,13 @@ def state_oracle(ex, count_eval, all_senders=True):
         if b not in probe_ids:
             probe_ids.append(b)
     probe_ids.append(ex.own)
+    name = {}
+    for i, (n, _, _) in enumerate(ex.contacts):
+        name.setdefault(bytes.fromhex(n), f'id(c{i})')
+    name[ex.own] = 'own-id'
+
+    def nm(b):
+        return name.get(b, b.hex()[:10] + '..')
     for nid in probe_ids:
         count_eval()
         try:
@@ -491,7 +498,7 @@ def state_oracle(ex, count_eval, all_senders=True):
         exp = by_id.get(nid)
         if got != exp or (got is not None and got.node_id != nid):
             out.append(({'kind': 'get-peer', 'expected_member': exp is not None, 'got_none': got is None},
-                        f'get_peer({nid.hex()[:10]}..) returned {got}, member: {exp}'))
+                        f'get_peer({nm(nid)}) returned {got}, member: {exp}'))
     # closest-K
     ids = [p.node_id for p in members]
     non_members = [b for b in probe_ids if b not in by_id and b != ex.own]
@@ -528,9 +535,14 @@ def state_oracle(ex, count_eval, all_senders=True):
                     defect = 'length'
                 else:
                     defect = 'not-nearest'
-                out.append(({'kind': 'closest', 'defect': defect, 'count': cclass, 'sender': sclass},
-                            f'find_close_peers(key={key.hex()[:10]}.., count={cnt}, sender={sclass}) returned '
-                            f'{[g.hex()[:8] for g in got]}, nearest are {[g.hex()[:8] for g in exp]}'))
+                sig = {'kind': 'closest', 'defect': defect}
+                if defect == 'length':
+                    sig['count'] = cclass
+                    sig['returned'] = 'more' if len(got) > len(exp) else 'fewer'
+                out.append((sig,
+                            f'find_close_peers(key={key.hex()[:6]}..{key.hex()[-4:]}, count={cnt}, '
+                            f'sender={sclass if sender is None else nm(sender)}) returned '
+                            f'{[nm(g) for g in got]}, nearest are {[nm(g) for g in exp]}'))
     return out
 
 
@@ -1039,7 +1051,7 @@ def minimise(cfg, hops, sig):
     hops = list(hops)
     budget = 400
     i = len(hops) - 1
-    q = 'every' if _needs_queries(sig) else 'none'
+    q = 'last' if _needs_queries(sig) else 'none'     # a query violation is a verdict about the final state only
     while i >= 0 and budget > 0 and len(hops) > 1:
         cand = hops[:i] + hops[i + 1:]
         budget -= 1
@@ -1147,7 +1159,8 @@ def _run(ctx, scratch):
         hops = history_ops(cfg, h, kind)
         key = repr(sorted(sig.items()))
         if key not in confirmed:
-            step, bad = first_violations(cfg, hops, queries='every' if _needs_queries(sig) else 'none')
+            step, bad = first_violations(cfg, hops, queries='last' if _needs_queries(sig) else 'none',
+                                         all_senders=cfg['K'] < 8)
             res.count('determinism_replays')
             if step is None or not any(s == sig for s, _ in bad):
                 res.error(f'violation {sig} of {cfg["name"]} after {fmt_ops(hops)} did not reproduce from scratch '
@@ -1236,7 +1249,9 @@ def replay(data):
     for i, (n, a, p) in enumerate(cfg['contacts']):
         log.append(f'  c{i}: d={hex(int(n, 16) ^ o)} @ {a}:{p}')
     log += observe(cfg, hops)
-    step, bad = first_violations(cfg, hops)
+    # transition oracle after every operation; the query oracle judges the final state (the explorer never
+    # expands a violating state, so the recorded history fails at its last operation or in its final state)
+    step, bad = first_violations(cfg, hops, queries='last')
     for sig, what in bad:
         log.append(f'VIOLATED after operation {step}: {what}   signature={sig}')
     return bool(bad), '\n'.join(log)
